@@ -4,6 +4,7 @@ import (
 	"fmt"
 	"go/token"
 	"go/types"
+	"strings"
 
 	"golang.org/x/tools/go/ssa"
 
@@ -214,6 +215,24 @@ func checkC11(p *core.Program, r *core.Report) {
 	default:
 		r.Fail(R4, key, p.Pos(hcc.Pos()), fmt.Sprintf("RemoteSKIDisconnected is called between %d and %d times on paths of HandleConnectionClosed", mn, mx))
 	}
+	// the application is told after the registry was examined: a disconnect callback that calls back into the hub for
+	// that SKI (DisconnectSKI, UnregisterRemoteSKI) must not find the ended connection still registered - it would be
+	// closed again on the goroutine that is inside its close-once
+	{
+		key := "hub.HandleConnectionClosed tells the application after the registry examination"
+		examines := core.NewMust(p, 2, func(in ssa.Instruction) bool {
+			if lk, ok := in.(*ssa.Lookup); ok {
+				f, _ := core.LoadedField(lk.X)
+				return f == fConns
+			}
+			return false
+		})
+		if bad := core.PathSearch(hcc, nil, func(in ssa.Instruction) bool { return core.IsInvokeOf(in, mDisc) }, examines.Instr, nil); bad != nil {
+			r.Fail(R4, key, p.Pos(bad.Pos()), "RemoteSKIDisconnected is called before the registry entry of the ended connection was looked up and removed: a callback that disconnects or unregisters the SKI finds the ended connection, closes it again from inside its own close-once and deadlocks - the entry is never deleted")
+		} else {
+			r.OK(R4, key, p.Pos(hcc.Pos()), "the lookup/delete precedes the callback on every path")
+		}
+	}
 	// its argument is the closing connection's SKI
 	core.EachInstr(hcc, func(in ssa.Instruction) {
 		if core.IsInvokeOf(in, mDisc) {
@@ -314,6 +333,9 @@ func checkC11(p *core.Program, r *core.Report) {
 	r.Rule(R8, "a handshake that enters a terminal state runs the close routine (or spawns the goroutine that does) on every path, so that its end is reported (shared with C04.R4); and every constructed connection is stored in the registry unconditionally, replacing the entry of the connection it supersedes (shared with C05.R4) - else the superseded connection's end report empties the registry while the new connection lives on unknown to the hub")
 	importRules(p, r, "C04", map[string]string{"C04.R4 transport-closed": R8}, nil)
 	importRules(p, r, "C05", map[string]string{"C05.R4 construct-run-register": R8}, nil)
+	importRules(p, r, "C09", map[string]string{"C09.R1 access-decision-table": R8}, func(key string) bool {
+		return strings.Contains(key, "approve-after-error") || strings.Contains(key, "approve-with-decode-error")
+	})
 	_ = types.Typ
 }
 
